@@ -242,7 +242,7 @@ func genHttpFacts(repo, out string) error {
 	}
 
 	var b strings.Builder
-	b.WriteString("/- GENERATED by /verif/translate (generator HttpFacts) from pkg/util/vhost/http.go and pkg/plugin/client/{http2http,http2https,https2http,https2https}.go — do not edit. -/\n")
+	b.WriteString("/- GENERATED by /verif/translate (generator HttpFacts) from pkg/util/vhost/{http,resource,vhost}.go, server/group/http.go and pkg/plugin/client/{http2http,http2https,https2http,https2https}.go — do not edit. -/\n")
 	b.WriteString("namespace Frp.Gen.HttpFacts\n\n")
 	b.WriteString("/-- every `defer` in these files whose callee contains `recover()`: (file, enclosing function)\n")
 	for _, s := range sites {
@@ -270,7 +270,13 @@ func genHttpFacts(repo, out string) error {
 		}
 		fmt.Fprintf(&b, "  { file := %q, explicit := %v, fields := [%s] }%s\n", t.file, t.explicit, strings.Join(fs, ", "), sep)
 	}
-	b.WriteString("]\n\nend Frp.Gen.HttpFacts\n")
+	b.WriteString("]\n\n")
+	routes, err := hfRoutesLean(repo, fset, parsed)
+	if err != nil {
+		return err
+	}
+	b.WriteString(routes)
+	b.WriteString("end Frp.Gen.HttpFacts\n")
 
 	if err := os.MkdirAll(out, 0o755); err != nil {
 		return err
